@@ -74,9 +74,9 @@ BlocksFor(d, c, names) ==
       prs == SelectSeq(Params, LAMBDA n : n \in names)
       idx == SelectSeq([j \in 1..Len(Build) |-> j], LAMBDA j : Build[j] \in names)
   IN (IF sts = <<>> THEN <<>> ELSE
-        <<[k |-> "states", comp |-> c, entries |-> [j \in 1..Len(sts) |-> Entry(sts[j], IF sts[j] = "x" THEN N("1") ELSE N("0.5"))]]>>)
+        <<[k |-> "states", comp |-> c, entries |-> [j \in 1..Len(sts) |-> Entry(sts[j], IF sts[j] = "x" THEN N("1") ELSE Bn("sub", N("1"), N("0.5")))]]>>)
   \o (IF prs = <<>> THEN <<>> ELSE
-        <<[k |-> "parameters", comp |-> c, entries |-> [j \in 1..Len(prs) |-> Entry(prs[j], IF prs[j] = "p" THEN N("2") ELSE IF prs[j] = "U" THEN N("4") ELSE N("0.25"))]]>>)
+        <<[k |-> "parameters", comp |-> c, entries |-> [j \in 1..Len(prs) |-> Entry(prs[j], IF prs[j] = "p" THEN N("2") ELSE IF prs[j] = "U" THEN Bn("mul", N("2"), N("2")) ELSE Bn("div", N("0.5"), N("2")))]]>>)
   \o (IF idx = <<>> THEN <<>> ELSE
         <<[k |-> "expressions", comp |-> c, entries |-> [j \in 1..Len(idx) |-> Entry(Build[idx[j]], Tpl(idx[j], SortByName(d[Build[idx[j]]])))]]>>)
 AllN == SeqSet(States) \cup SeqSet(Params) \cup SeqSet(Build)
